@@ -28,5 +28,7 @@ def run(ctx):
     ctx.pipe([h, "direct", "24" if ctx.tier == "quick" else "300", "9", "16"], "direct", label="direct-solves")
     if ctx.tier == "thorough":
         ctx.pipe([h, "direct", "10", "17", "32"], "direct", label="direct-solves-17x32")
+    # "any thread count used for assembly": the assembly regions must be race-free, otherwise the matrix depends on the schedule
+    ctx.schedule_conflicts(("DirectSolverGive", "DirectSolverTake"))
     ctx.assumptions += ["'pivots != 0 for the assembled matrix in grid order' is a hypothesis of C04.solve_inverts (it follows from C05 by a principal-minor "
                         "argument that is not formalised); the code's own tiny-pivot exit branch is part of the C16 model"]
